@@ -196,6 +196,27 @@ type Unsupported struct {
 	C chan int
 }
 
+// unsupported members below supported catalogue structs: the compile fails
+// half-way, after the structs in front of the bad member have been entered
+type Unsupported2 struct {
+	S Small
+	N Nested
+	W *Wide
+	C chan int
+}
+type Unsupported3 struct {
+	B []Big
+	L *Leaf
+	F func()
+}
+type Unsupported4 struct {
+	M  map[string]Tagged
+	In struct {
+		X Small
+		C chan string
+	}
+}
+
 // non-empty interface member
 type Shape interface{ Area() int }
 type Sq struct{ S int }
@@ -700,6 +721,9 @@ func init() {
 	reg("IntKeys", IntKeys{})
 	reg("WithShape", WithShape{})
 	reg("Unsupported", Unsupported{}, "bad")
+	reg("Unsupported2", Unsupported2{}, "bad")
+	reg("Unsupported3", Unsupported3{}, "bad")
+	reg("Unsupported4", Unsupported4{}, "bad")
 	reg("MJ", MJ{}, "mcb")
 	reg("MJP", MJP{}, "mcb")
 	reg("MT", MT{}, "mcb", "ucb")
